@@ -10,7 +10,9 @@
 
    All theorems about get_optimal_cols_and_rows depend on Gen.caps_explicit = true, i.e. on the
    source capping explicit dimensions (fixes/C15-explicit-over-limit.patch); on the unrepaired
-   source Proofs/CellSizeProofs.src_caps_explicit fails and C15_uncapped_refuted is the witness. *)
+   source Proofs/CellSizeProofs.src_caps_explicit fails and C15_uncapped_refuted is the witness.
+   They also depend on Gen.aspect_unscaled = true (a derived dimension is computed from the unscaled
+   image size: repair of F-C15b, see Props/C15float.v for the binary64 witness of the old shape). *)
 From Coq Require Import ZArith Bool QArith.
 From Tup Require Import Gen.CellSizeGen Model.CellSize Spec.SizingSpec Proofs.CellSizeProofs.
 Open Scope Z_scope.
@@ -48,7 +50,10 @@ Theorem C15_explicit_verbatim : forall num of_Z mul div is_zero ceil one (cfg : 
 Proof. exact thm_explicit_verbatim. Qed.
 Print Assumptions C15_explicit_verbatim.
 
-(* explicit cols within the limit are kept, unless the rows derived from them (r0) exceeded the row limit *)
+(* explicit cols within the limit are kept, unless the rows derived from them (r0) exceeded the row limit.
+   The derived dimension is computed from the UNSCALED size w x h (Gen.aspect_unscaled = true: repair of F-C15b;
+   in exact arithmetic the scale cancels, C15_derived_dimension_scale_free below; in binary64 it does not,
+   Props/C15float.v) *)
 Theorem C15_explicit_cols_kept_unless_rows_capped :
   forall num of_Z mul div is_zero ceil one (cfg : config num) t w h c amc amr scale C R mc mr,
   get_max_cols_and_rows (cfg_max_cols _ cfg) (cfg_max_rows _ cfg) t amc amr = Ok (mc, mr) ->
@@ -56,8 +61,7 @@ Theorem C15_explicit_cols_kept_unless_rows_capped :
   get_optimal_cols_and_rows num of_Z mul div is_zero ceil one cfg t w h (Some c) None amc amr scale = Ok (C, R) ->
   C = c \/
   exists r0, rows_from_cols num of_Z mul div is_zero ceil
-               (mul (of_Z w) (effective_scale num mul is_zero one cfg scale))
-               (mul (of_Z h) (effective_scale num mul is_zero one cfg scale))
+               (of_Z w) (of_Z h)
                (fst (get_cell_size (cfg_cell_size _ cfg) (cfg_default_cell_size _ cfg) t))
                (snd (get_cell_size (cfg_cell_size _ cfg) (cfg_default_cell_size _ cfg) t)) c = Ok r0 /\
              mr < r0 /\ R = mr.
@@ -71,8 +75,7 @@ Theorem C15_explicit_rows_kept_unless_cols_capped :
   get_optimal_cols_and_rows num of_Z mul div is_zero ceil one cfg t w h None (Some r) amc amr scale = Ok (C, R) ->
   R = r \/
   exists c0, cols_from_rows num of_Z mul div is_zero ceil
-               (mul (of_Z w) (effective_scale num mul is_zero one cfg scale))
-               (mul (of_Z h) (effective_scale num mul is_zero one cfg scale))
+               (of_Z w) (of_Z h)
                (fst (get_cell_size (cfg_cell_size _ cfg) (cfg_default_cell_size _ cfg) t))
                (snd (get_cell_size (cfg_cell_size _ cfg) (cfg_default_cell_size _ cfg) t)) r = Ok c0 /\
              mc < c0 /\ C = mc.
@@ -121,10 +124,20 @@ Theorem C15_fit_exists : forall (W H BW BH : Q), (0 < W)%Q -> (0 < H)%Q ->
 Proof. exact thm_fit_exists. Qed.
 Print Assumptions C15_fit_exists.
 
+(* ---- the scale cancels (exact arithmetic): whether a dimension is derived from the unscaled size (the source since
+   the repair of F-C15b) or from the scaled one (the pinned tree) makes no difference to the rational instance — the two
+   shapes differ only by floating-point rounding, which is what Props/C15float.v exhibits *)
+Theorem C15_derived_dimension_scale_free : forall (cfg : q_config) t w h cols rows amc amr scale,
+  0 < w -> 0 < h -> (0 < q_effective_scale cfg scale)%Q ->
+  (let '(cw, ch) := get_cell_size (cfg_cell_size _ cfg) (cfg_default_cell_size _ cfg) t in 0 < cw /\ 0 < ch) ->
+  q_optimal_with true true cfg t w h cols rows amc amr scale = q_optimal_with true false cfg t w h cols rows amc amr scale.
+Proof. exact thm_scale_free. Qed.
+Print Assumptions C15_derived_dimension_scale_free.
+
 (* ---- the unrepaired formula (explicit dimensions not capped before use): clause 4 fails.
    1x1 px image, default 8x16 cells, 80x24 terminal, rows=3, max_rows=1  ->  6 x 1 (4 columns unused) *)
 Theorem C15_uncapped_refuted :
-  q_optimal_with false refute_cfg refute_term 1 1 None (Some 3) None (Some 1) None = Ok (6, 1) /\
+  q_optimal_with false true refute_cfg refute_term 1 1 None (Some 3) None (Some 1) None = Ok (6, 1) /\
   ~ no_unused_row_or_col 1 1 8 16 6 1.
 Proof. exact thm_uncapped_refuted. Qed.
 Print Assumptions C15_uncapped_refuted.
@@ -135,9 +148,9 @@ Example C15_nonvacuous :
   get_max_cols_and_rows (cfg_max_cols _ refute_cfg) (cfg_max_rows _ refute_cfg) refute_term None (Some 1) = Ok (80, 1) /\
   get_cell_size (cfg_cell_size _ refute_cfg) (cfg_default_cell_size _ refute_cfg) refute_term = (8, 16) /\
   (0 < q_effective_scale refute_cfg None)%Q /\ one_auto None (Some 3) /\
-  q_optimal_with true refute_cfg refute_term 1 1 None (Some 3) None (Some 1) None = Ok (2, 1) /\
-  q_optimal_with true refute_cfg refute_term 100 333 (Some 300) None None None (Some (1 # 2)%Q) = Ok (15, 24) /\
-  q_optimal_with true refute_cfg refute_term 100 333 None None None None None = Ok (13, 21).
+  q_optimal_with true true refute_cfg refute_term 1 1 None (Some 3) None (Some 1) None = Ok (2, 1) /\
+  q_optimal_with true true refute_cfg refute_term 100 333 (Some 300) None None None (Some (1 # 2)%Q) = Ok (15, 24) /\
+  q_optimal_with true true refute_cfg refute_term 100 333 None None None None None = Ok (13, 21).
 Proof.
   repeat split; try reflexivity. intros [X _]. discriminate X.
 Qed.
